@@ -158,6 +158,9 @@ def main():
         if rf.get("crash"):
             out = os.path.join(BUILD, "replay_out.json")
             args = {"prop": prop, "world": rf["world"], "mode": "one", "seed": rf["batch_seed"], "start": rf["index"], "out": out, "knobs": rf.get("knobs") or {}, "extra": {}}
+            if rf.get("tape"):
+                # the crash happened while this tape was being replayed
+                args = {"prop": prop, "world": rf["world"], "mode": "replay", "replay": os.path.abspath(a.replay), "out": out}
             p = worker_cmd(binary, args)
             so, _ = p.communicate()
             ci = crash_info(so) if p.returncode != 0 else None
@@ -221,10 +224,14 @@ def main():
                 if ci and os.path.exists(cur):
                     # the simulated process (= this worker) was killed by a panic in maddy code
                     c = json.load(open(cur))
-                    if not c.get("replay"):
+                    # (the run in progress may have been a replay during the
+                    # minimisation of another violation: then its tape is in
+                    # the breadcrumb and the crash is reproduced from it)
+                    tape = c.get("tape") if c.get("replay") else None
+                    if not c.get("replay") or tape:
                         total["violations"].append({"key": "%s/process-crash/%s" % (prop, ci[0]), "detail": "maddy crashed the process: %s" % ci[1],
-                                                    "seed": c["seed"], "index": c["index"], "knobs": c.get("knobs") or {}, "tape": None, "trace": so[so.find("panic:"):][:3000].splitlines(),
-                                                    "event_hash": "", "tape_len": 0, "orig_tape_len": 0, "world": part["world"], "crash": True, "batch_seed": args_seed})
+                                                    "seed": c["seed"], "index": c["index"], "knobs": c.get("knobs") or {}, "tape": tape, "trace": so[so.find("panic:"):][:3000].splitlines(),
+                                                    "event_hash": "", "tape_len": sum(len(x) for x in tape.values()) if tape else 0, "orig_tape_len": 0, "world": part["world"], "crash": True, "batch_seed": args_seed})
                         total["runs"] += 1
                         continue
                 total["harness"].append("worker %d of world %s exited %s:\n%s" % (j, part["world"], p.returncode, so[-5000:]))
